@@ -1186,10 +1186,7 @@ class ParsedEvent(EDXMLEvent, etree.ElementBase):
         Returns:
           ParsedEvent:
         """
-        try:
-            self._attachments[name] = attachment
-        except AttributeError:
-            self._attachments = AttachmentSet({name: attachment}, update_attachment=self.__update_attachment)
+        self.get_attachments()[name] = attachment
 
         return self
 
@@ -1592,10 +1589,7 @@ class EventElement(EDXMLEvent):
           EventElement:
         """
 
-        if self._attachments is None:
-            self._attachments = AttachmentSet({name: attachment}, update_attachment=self.__update_attachment)
-        else:
-            self._attachments[name] = attachment
+        self.get_attachments()[name] = attachment
         return self
 
     def add_parents(self, parent_hashes):
